@@ -488,6 +488,13 @@ mod tests {
     }
 
     #[test]
+    fn calls_where_the_name_ends_with_parenthesis() {
+        check_statement("something(0 to 1);");
+        check_statement("something(0 to 1)(arg);");
+        check_statement("something'attr(('a'));");
+    }
+
+    #[test]
     fn assertions() {
         check_statement("assert x;");
         check_statement("assert x report y;");
